@@ -4,7 +4,7 @@
     theorems for EVERY matcher; Match/Ctl.v instantiates both with the control functions. *)
 From Coq Require Import ZArith List Bool.
 From V Require Import Scan.ScanModel Run.RunLoop Run.RunFacts Run.RunControl
-  Match.Adjudicate Match.AdjProofs Match.Ctl Match.CtlProofs.
+  Match.Adjudicate Match.AdjProofs Match.Ctl Match.CtlProofs Scan.PySem Scan.ScanSrc Scan.ScanSrcEq.
 Import ListNotations.
 Open Scope Z_scope.
 
@@ -117,6 +117,14 @@ Print Assumptions C13_skip_last_leaks_refuted.
 
 (** Non-vacuity: stop in the middle of line 3 of a 5-record file whose record 2 is blank: the
     push after stop() does not run on line 3, line 3 is not returned, line 4 is never read. *)
+(** Scanner.is_last as it is WRITTEN in csvpath/scanning/scanner.py (translated into Scan/ScanSrc.v; Python semantics of Scan/PySem.v,
+    max() of an empty list and ordering a None being errors) returns exactly the model's answer and never raises — the function that
+    decides where last() fires and where the run stops.  Re-checked against the source of the tree under test on every run. *)
+Theorem C13_is_last_source : forall (s : sc) (line : Z) (e : option Z),
+  is_last_src (PInt line) (of_oz (from_line s)) (of_oz (to_line s)) (PBool (all_lines s)) (PList (these s)) (of_oz e) = PBool (is_last false s e line).
+Proof. exact is_last_src_eq. Qed.
+Print Assumptions C13_is_last_source.
+
 Example C13_nonvacuous :
   let prog := [CAct (APush 1); CWhen (EqLine 3) true AStop; CAct (APush 2)] in
   let o := ctl_run false false (mkSc [] None None true) prog [false; false; true; false; false] in
